@@ -350,6 +350,18 @@ def run_property(prop, tier="quick", seed=0):
         results.append(dict(qual=g["qual"], error=g.get("error") or (("CHECKER-ERROR " + errs[0]["error"]) if errs else None),
                             results=[r for r in recs if r["verdict"] != "error"], paths=g.get("paths", 0), gen_s=g.get("gen_s"), fn=g.get("fn"),
                             checker_error=g.get("checker_error") or bool(errs)))
+    if spec.get("ownership"):
+        # frame / ownership obligations (pyvc.ownership): exact facts about the source text, one per function of the anchored files
+        from pyvc import ownership
+        t_o = time.time()
+        try:
+            own = ownership.analyse(REPO, spec["ownership"])
+            recs = [dict(name=o["name"], verdict="unsat" if o["ok"] else "sat", time_s=0.0, tried=["ownership"], reason=o["detail"], backend="ast-ownership",
+                         goal=o["detail"]) for o in own]
+            results.append(dict(qual="own:" + ",".join(spec["ownership"])[:60], error=None if recs else "CHECKER-ERROR ownership pass found no function", results=recs, paths=0,
+                                gen_s=round(time.time() - t_o, 2), fn=dict(qual="ownership pass", file="; ".join(spec["ownership"]), functions=len(recs)), checker_error=not recs))
+        except SyntaxError as ex:
+            results.append(dict(qual="own:*", error="OUT-OF-SUBSET source does not parse: " + repr(ex)[:200], results=[], paths=0, fn=None, checker_error=False))
     spec = dict(spec, gen_wall_s=round(gen_wall, 1))
     th.join()
     return assemble(prop, tier, seed, spec, quals, lem, results, t_start, early.get("r"))
@@ -409,6 +421,13 @@ def assemble(prop, tier, seed, spec, quals, lem, results, t_start, early_standin
         status = 2
         for o in undecided[:8]:
             lines.append(f"UNDECIDED property={prop} obligation={o['name']} reason={o.get('reason', '')}")
+    oos = [e for e in errors if str(e.get("error", "")).startswith("OUT-OF-SUBSET")]
+    errors = [e for e in errors if e not in oos]
+    if oos:
+        # an edit moved a function under contract out of the verifiable subset: undecided (the stand-in above had its chance to find a replay)
+        status = 2 if status == 0 else status
+        for e in oos[:5]:
+            lines.append(f"UNDECIDED property={prop} obligation={e['qual']}/* reason={e['error'][:300]}")
     if errors:
         status = 3 if status == 0 else status
         for e in errors[:5]:
@@ -423,14 +442,15 @@ def assemble(prop, tier, seed, spec, quals, lem, results, t_start, early_standin
     trusted = sorted({f"{c.qual}: {c.note}" for c in REGISTRY.values() if c.trusted and (prop in c.props)})
     inl = sorted({c.qual for c in REGISTRY.values() if c.inline})
     ev = {
-        "property_id": prop, "tier": tier, "seed": seed, "level": "proof",
+        "property_id": prop, "tier": tier, "seed": seed, "level": spec.get("level", "proof"),
         "coverage": {
             "obligations": len(obs) - len(known), "discharged": len(discharged),
             "checker_cmd": f"./check {prop} --tier {tier}",
             "trusted_base": ["CPython ast", "z3 5.1.0 (python3-vt)", "pyvc VC generator (/verif/pyvc)"] + (["cvc5 1.0.3 cross-check"] if tier == "thorough" else []),
             "functions_under_contract": fns,
             "lemmas": lem,
-            "by_backend": {"z3": len(discharged), "cvc5_rechecked": sum(1 for o in obs if o.get("cvc5")),
+            "by_backend": {"z3": sum(1 for o in discharged if o.get("backend") != "ast-ownership"), "ast-ownership": sum(1 for o in discharged if o.get("backend") == "ast-ownership"),
+                           "cvc5_rechecked": sum(1 for o in obs if o.get("cvc5")),
                            "cvc5_agree": sum(1 for o in obs if o.get("cvc5") == "unsat")},
             "solver_time_s": round(sum(o["time_s"] for o in obs), 2),
             "ladder": {k: sum(1 for o in discharged if (o.get("tried") or ["full"])[-1] == k) for k in ("full", "quantifier-free-hyps", "sliced", "full-long", "seed7")},
@@ -446,6 +466,7 @@ def assemble(prop, tier, seed, spec, quals, lem, results, t_start, early_standin
             "evaluations": standin.get("summary", {}).get("evaluations", 0),
             "distinct_nontrivial": standin.get("summary", {}).get("distinct_nontrivial", 0),
             "rule": standin.get("summary", {}).get("rule", ""),
+            **({"explanation": spec["explanation"]} if spec.get("explanation") else {}),
         },
         "assumptions": spec.get("assumptions", []) + ["A-REAL floats as reals", "A-WARN warnings do not raise", "A-IMMUT cached/frozen objects are not mutated",
                                                       "A-TYPES annotated types hold", "termination not verified"],
